@@ -3,6 +3,8 @@ simcore::install_libc_seams!();
 
 mod c17;
 mod c18;
+mod c19;
+mod c20;
 mod stmt;
 mod world;
 
@@ -14,6 +16,8 @@ use std::sync::Arc;
 pub enum Case {
     C17(c17::Case),
     C18(c18::Case),
+    C19(c19::Case),
+    C20(c20::Case),
 }
 
 pub struct H {
@@ -25,6 +29,8 @@ impl Harness for H {
     fn generate(&self, case_seed: u64, idx: u64, tier: Tier) -> Case {
         match self.kind {
             "c18" => Case::C18(c18::generate(case_seed, idx, tier)),
+            "c19" => Case::C19(c19::generate(case_seed, idx, tier)),
+            "c20" => Case::C20(c20::generate(case_seed, idx, tier)),
             _ => Case::C17(c17::generate(case_seed, idx, tier)),
         }
     }
@@ -32,18 +38,24 @@ impl Harness for H {
         match case {
             Case::C17(c) => simcore::rng::derive(c.seed, "entropy"),
             Case::C18(c) => simcore::rng::derive(c.seed, "entropy"),
+            Case::C20(c) => simcore::rng::derive(c.seed, "entropy"),
+            Case::C19(c) => simcore::rng::derive(c.seed, "entropy"),
         }
     }
     fn execute(&self, case: &Case, rep: &mut RunReport) -> Result<(), Violation> {
         match case {
             Case::C17(c) => c17::execute(c, rep),
             Case::C18(c) => c18::execute(c, rep),
+            Case::C20(c) => c20::execute(c, rep),
+            Case::C19(c) => c19::execute(c, rep),
         }
     }
     fn shrink(&self, case: &Case) -> Vec<Case> {
         match case {
             Case::C17(c) => c17::shrink(c).into_iter().map(Case::C17).collect(),
             Case::C18(c) => c18::shrink(c).into_iter().map(Case::C18).collect(),
+            Case::C20(c) => c20::shrink(c).into_iter().map(Case::C20).collect(),
+            Case::C19(c) => c19::shrink(c).into_iter().map(Case::C19).collect(),
         }
     }
 }
@@ -92,6 +104,44 @@ fn main() {
             vec![(
                 PhaseSpec { label: "history", quick_runs: 240, thorough_runs: 20000, quick_budget_s: 70.0, thorough_budget_s: 1200.0 },
                 Arc::new(H { kind: "c18" }),
+            )],
+        ),
+        "C19" => standard_main(
+            &opts,
+            &CheckSpec {
+                harness_name: "h_nexus",
+                level: "exploration",
+                rule: "one evaluation = one run of one of three modes: (a) a tagged low/high history applied to a store and (low statements only) to its filtered clone, followed by the principal's read battery on both; (b) a control-plane change (grant revocation, suspension, principal revocation, expiry by clock jump, explicit deny policy, revocation of a delegator's grant) racing the principal's requests under a seeded schedule; (c) a generated KML/KQL history by owner/writer/reader sessions with the gov_* collections and every element's governance block compared around each command; distinct = distinct histories with at least one hidden element, schedule signatures with overlapping calls, and command-outcome sequences",
+                real: REAL,
+                stub: STUB,
+                assumptions: &[
+                    "the relational clause is decided by seeded generation against a self-consistency oracle (the same principal on the store and on the clone built by the real executor), not by a fault or schedule; it is hosted in the simulated runs",
+                    "hidden = classification above the grant's ceiling, or quarantine; low statements never reference hidden elements",
+                    "governance configurations come from a small unambiguous fragment (default deny; grants with ceilings/expiries; one delegation; one deny policy)",
+                ],
+                required_probes: &["differential_answers_compared", "high_statements", "requests_after_change", "session_commands_checked", "refused_by_authorization"],
+                required_faults: &[],
+            },
+            vec![(
+                PhaseSpec { label: "governance", quick_runs: 360, thorough_runs: 30000, quick_budget_s: 70.0, thorough_budget_s: 1200.0 },
+                Arc::new(H { kind: "c19" }),
+            )],
+        ),
+        "C20" => standard_main(
+            &opts,
+            &CheckSpec {
+                harness_name: "h_nexus",
+                level: "exploration",
+                rule: "one evaluation = one (assertion multiset, schedule) recording: every assertion is issued by its own session task and the scheduler's lock hand-over order is the recording order; beliefs about the target and both rival values are projected at four evaluation times; distinct = distinct (multiset, recording order reached) pairs",
+                real: REAL,
+                stub: STUB,
+                assumptions: &["the reference computes eligibility (lifecycle, validity window, mode), connected components over shared actor or evidence, 1-prod(1-max_c) and the policy thresholds; it is itself checked against the repetition and monotonicity laws", "scores compared to 1e-9 (float product order)"],
+                required_probes: &["beliefs_vs_reference", "confluence_pairs_checked", "multisets_with_distinct_recording_orders", "insufficient_checked"],
+                required_faults: &[],
+            },
+            vec![(
+                PhaseSpec { label: "belief", quick_runs: 400, thorough_runs: 30000, quick_budget_s: 70.0, thorough_budget_s: 1200.0 },
+                Arc::new(H { kind: "c20" }),
             )],
         ),
         other => {
